@@ -33,7 +33,6 @@ def variance(key_mapper=lambda i: i, reduce=False):
         else:
             mean = _moment(acc, 0, 1)
             v = _moment(acc, mean, 2)
-            acc.clear()
             return v
 
     return rx.pipe(
